@@ -118,9 +118,11 @@ def _pipeline(models):
     for j in range(models):
         g = GROUPS[j * len(GROUPS) // models] if models <= len(GROUPS) else GROUPS[j % len(GROUPS)]
         g = GROUPS[min(j // max(1, models // len(GROUPS) or 1), len(GROUPS) - 1)] if models > len(GROUPS) else GROUPS[j]
-        # a switched-off model in front of every probe: positions among the listed models and among the executed ones differ
-        kw.setdefault(g, []).append(ModelFunction(name=f"off{j}", func="vxprobes.probe_b", arguments={"tag": -1 - j}, enabled=False))
-        kw.setdefault(g, []).append(ModelFunction(name=f"m{j}", func=("vxprobes.probe", "vxprobes.probe_a")[j % 2], arguments={"tag": j, "p": 0}))
+        # a switched-off model next to every probe - in front of it for even j (positions among the listed models and among the
+        # executed ones differ), behind it for odd j (the probe is the first listed model of its group)
+        off = ModelFunction(name=f"off{j}", func="vxprobes.probe_b", arguments={"tag": -1 - j}, enabled=False)
+        probe = ModelFunction(name=f"m{j}", func=("vxprobes.probe", "vxprobes.probe_a")[j % 2], arguments={"tag": j, "p": 0})
+        kw.setdefault(g, []).extend([off, probe] if j % 2 == 0 else [probe, off])
         layout.append((g, f"m{j}"))
     return DetectionPipeline(**kw), layout
 
